@@ -11,6 +11,18 @@ def run(chk):
     q = chk.tier == "quick"
     rng = chk.rng
     texts = parsesuite.random_uris(rng, 1500 if q else 40000) + parsesuite.repo_corpus()[: (500 if q else 3000)]
+    # every code point 128 / 200 / 255 behind every access string of the parser automaton (plain char is signed: a byte >= 0x80 is a
+    # negative value in the narrow build and a positive one in the wide build), and one such byte in every position of some valid texts
+    import c01
+    _, full = parsesuite.automaton_suite(mdl, 1)
+    hi = [f for f in full if any(c >= 128 for c in (dec(f) or []))]
+    texts += hi if not q else hi[:: 2]
+    for t in ("http://[::1]:80/x", "//u@[v1.x]:8", "s://h:80/a?q#f", "//1.2.3.4:5", "a%41/b"):
+        d = [ord(c) for c in t]
+        for i in range(len(d) + 1):
+            for b in (0x80, 0xb0, 0xb9, 0xe4, 0xff):
+                texts.append(enc(d[:i] + [b] + d[i:])); 
+                if i < len(d): texts.append(enc(d[:i] + [b] + d[i + 1:]))
     texts = [f for f in sorted(set(texts)) if all(c < 256 for c in (dec(f) or []))]
     reqs = []
     for f in texts:
